@@ -36,15 +36,15 @@ Print Assumptions C01_equal_value.
 (* The class constants regenerated from the source are the E5 ones. *)
 Theorem C01_constants_are_E5 :
   (fc_Array = code_L /\ fc_List = code_L) /\ fc_Binary = code_B /\ fc_Boolean = code_BOOL /\
-  fc_String = code_A /\ fc_JIS8 = code_J /\
+  fc_String = code_A /\ fc_JIS8 = code_J /\ (coding_String = "latin-1"%string /\ coding_JIS8 = "jis_8"%string) /\
   (forall k, num_fc k = (if is_unsigned k then code_U (e5w k) else if is_signed k then code_I (e5w k)
                          else match k with F4 => code_F4 | _ => code_F8 end)) /\
   (forall k, num_nbytes k = wbytes (e5w k)) /\
   (num_max_flt F4 = FLT_MAX64 /\ num_min_flt F4 = neg64 FLT_MAX64 /\
    num_max_flt F8 = DBL_MAX64 /\ num_min_flt F8 = neg64 DBL_MAX64).
 Proof.
-  exact (conj gen_fc_list (conj gen_fc_binary (conj gen_fc_boolean (conj gen_fc_string (conj gen_fc_jis8
-        (conj gen_fc_num (conj gen_nbytes gen_flt_bounds))))))).
+  exact (conj gen_fc_list (conj gen_fc_binary (conj gen_fc_boolean (conj gen_fc_string (conj gen_fc_jis8 (conj gen_codings
+        (conj gen_fc_num (conj gen_nbytes gen_flt_bounds)))))))).
 Qed.
 Print Assumptions C01_constants_are_E5.
 
